@@ -309,8 +309,9 @@ func NewFunc[F func(vm *VM) | func(vm *VM) Value | func(vm *VM, args []Value) | 
 	switch f := any(fnc).(type) {
 	case func(vm *VM): // 0->0
 		res = newFunc(argc, rets, f)
-	case func(vm *VM) Value: // 0->1
+	case func(vm *VM) Value: // 0->1 (arguments, if it is registered with any, are dropped)
 		res = newFunc(argc, rets, func(vm *VM) {
+			vm.stack = vm.stack[:len(vm.stack)-argc]
 			vm.stack = append(vm.stack, f(vm))
 		})
 	case func(vm *VM, args []Value): // N->0
